@@ -232,6 +232,14 @@ func FilePut(path string, exists bool, value int) {
 	}
 }
 
+// FilePutFloat makes the file hold a float text (e.g. "NaN", "+Inf", "12.5"): an integer read of
+// it fails to parse, strconv.ParseFloat of it yields exactly f.
+func FilePutFloat(path string, f float64) {
+	if err := os.WriteFile(path, []byte(strconv.FormatFloat(f, 'g', -1, 64)), 0o644); err != nil {
+		panic(err)
+	}
+}
+
 // FileGarbage makes the file exist with non-numeric content.
 func FileGarbage(path string) {
 	if err := os.WriteFile(path, []byte("garbage"), 0o644); err != nil {
